@@ -298,6 +298,7 @@ def run(ctx: Ctx):
                 f"of 0..{cover_bad[0][3] - 1} into shares of equal size (sizes differing by at most one under 'uneven')") if cover_bad else "", rel, g.line,
                sample=dict(groups=len(SIZES) * 3, bad=len(cover_bad)))
     _seed_domain(ctx)
+    _loaders_hand_the_epoch_to_the_sampler(ctx)
     plumbing(ctx, "S4")
     return dict(
         explanation=(
@@ -308,13 +309,61 @@ def run(ctx: Ctx):
             "advances it by exactly 1 on its only path; (S3) the rank slice is (rank, effective_total, world) "
             "over the epoch order and __len__ normalises to ceil((stop-start)/step); drop sets effective_total "
             "= total - total % world; (S4) the four uneven-handling modes are validated and dispatched "
-            "exhaustively. Disjointness/cover/equal counts follow from the (start, stop, step) triple by "
+            "exhaustively; (S6) the loaders forward init_epoch / seed to the sampler they build on every path, and the reported length of a "
+            "bucketed loader counts the rank's share of the current epoch. Disjointness/cover/equal counts follow from the (start, stop, step) triple by "
             "arithmetic. NOT decided: numpy RandomState / islice semantics (trusted)."),
-        decided=["S1", "S2", "S3", "S4"],
+        decided=["S1", "S2", "S3", "S4", "S6"],
         not_decided=["numpy.random.RandomState determinism", "itertools.islice semantics"],
         assumptions=["numpy.random.RandomState(seed).permutation is a deterministic function of seed",
                      "torch.distributed.get_rank/get_world_size are constant during a run"],
     )
+
+
+def _loaders_hand_the_epoch_to_the_sampler(ctx: Ctx):
+    """S6: the property is stated about what a rank is handed per epoch, and users meet the samplers through the loaders. (a) every loader
+    constructor that accepts `init_epoch` (or any option its sampler takes under the same name) forwards it on every path to the sampler it
+    builds - a loader resumed at epoch k must deliver epoch k's order, not epoch 0's; (b) the length a bucketed loader reports counts the
+    RANK's share of the current epoch (`get_samples_for_epoch(sampler.epoch)`): counting the epoch 'ignoring distributed' reports the
+    whole epoch on every rank, iterating the sampler itself advances its epoch."""
+    from rules.dropped import dropped_options
+    from sa.inline import Inliner
+    from sa.defuse import ReachingDefs
+    col, pkg, res = ctx.col, ctx.pkg, ctx.res
+    rel = pkg.module(MOD).relname
+    n_ctor = 0
+    for cname in ("SpectDataLoader", "LangDataLoader", "SpectEvaluationDataLoader", "SpectTrainingDataLoader", "ContextWindowTrainingDataLoader",
+                  "ContextWindowEvaluationDataLoader"):
+        try:
+            f = pkg.func(f"{MOD}::{cname}.__init__")
+        except Exception:
+            continue
+        n_ctor += 1
+        dro = [d_ for d_ in dropped_options(pkg, res, f) if d_["formal"] in ("init_epoch", "seed", "base_seed", "on_uneven_distributed")]
+        col.ob("G38", "S6", f"{rel}::{f.qualname}::epoch-and-seed-options-reach-the-sampler", not dro,
+               (f"{f.qualname} accepts `{dro[0]['formal']}` but builds {dro[0]['callee']} without it on some path (`{u(dro[0]['node'])[:80]}`): the "
+                f"sampler starts from its default, so the order of an epoch depends on how that epoch was reached") if dro else "", rel,
+               dro[0]["node"].lineno if dro else f.line)
+    col.floor("loader_constructors", n_ctor, 2)
+    ln = pkg.func(f"{MOD}::_get_batch_sampler_len")
+    rd = ReachingDefs(ln.node)
+    inl = Inliner(ln.node, rd)
+    bsn = ln.params[0].name
+    its = [inl.expand(n.iter) for n in own_nodes(ln.node) if isinstance(n, (ast.comprehension, ast.For))]
+
+    def _base(it):
+        t = u(it)
+        for wrap in ("iter(", "list(", "tuple("):
+            if t.startswith(wrap):
+                t = t[len(wrap):]
+        return t.startswith(f"{bsn}.sampler") or t == bsn
+    its = [it for it in its if _base(it)]
+    col.floor("loader_len_sampler_iterations", len(its), 1)
+    for it in its:
+        ok = isinstance(it, ast.Call) and isinstance(it.func, ast.Attribute) and it.func.attr == "get_samples_for_epoch" \
+            and len(it.args) == 1 and u(it.args[0]) == u(it.func.value) + ".epoch"
+        col.ob("G16", "S6", f"{rel}::{ln.qualname}::length-counts-the-rank's-share-of-the-current-epoch", ok,
+               f"the reported length is counted over `{u(it)[:90]}`; it must be <sampler>.get_samples_for_epoch(<sampler>.epoch) - the rank's own "
+               f"share of the epoch the next iteration delivers", rel, it.lineno, sample=u(it)[:100])
 
 
 MANIFEST = dict(
